@@ -118,6 +118,21 @@ def check_object(P, ver, s):
                                      type(o2) is L.CLS[ver]))
         if not ok or not all(x is True for x in same):
             P.violation("round-trip", "C12:v%s:round-trip-object-differs" % ver, case, rh=rh, observed=repr(same))
+    # "for every object": also one whose other accessors have been used in between
+    def touch():
+        o.clean_vector()
+        if ver != "2":
+            o.clean_vector(output_prefix=False)
+        o.severities()
+        o.as_json(minimal=True)
+        if ver != "4":
+            o.temporal_vector(), o.environmental_vector()
+        hash(o)
+        return o.rh_vector()
+    ok, rh2 = obs.call(touch)
+    P.ev("rh-format-after-accessors")
+    if not ok or rh2 != rh:
+        P.violation("rh-format", "C12:v%s:rh_vector-differs-after-other-accessors" % ver, case, first=repr(rh), then=repr(rh2)[:300])
     return o, sc
 
 
